@@ -791,6 +791,8 @@ type Logger interface {
 	Printf(string, ...interface{})
 	Id() string
 	Url(Id string) string
+	Trace(tenantIdentifier string, requestPath string, component string, operation string, correlationIdentifier string, attemptNumber int, deadlineMilliseconds int64, details ...interface{})
+	Record(tenantIdentifier string, requestPath string, component string, operation string, correlationIdentifier string, attemptNumber int, deadlineMilliseconds int64, outcome error) (accepted bool, retryAfterMilliseconds int64, failure error)
 }
 
 type Private interface {
